@@ -536,7 +536,9 @@ func (b *assignmentBuilder) sliceToSlice(lhs, rhs bmodel.Node) (a gmodel.Assignm
 	}
 
 	if types.AssignableTo(rhsElem, lhsElem) {
-		if util.IsBasicType(rhsElem) {
+		// copy() demands identical element types; assignable ones (string into
+		// interface{}) have to go through the element loop.
+		if util.IsBasicType(rhsElem) && types.Identical(rhsElem, lhsElem) {
 			a = gmodel.SliceAssignment{
 				LHS: lhs.AssignExpr(),
 				RHS: rhs.AssignExpr(),
